@@ -11,7 +11,7 @@ import re
 
 from . import common
 from . import p_echsd
-from .p_echsd import TaskSpec, request, T0, USERS
+from .p_echsd import TaskSpec, request, T0, USERS, CROWD
 
 
 def gen(rng, thorough):
@@ -48,7 +48,18 @@ def gen(rng, thorough):
     ops += add_some(rng.randint(1, 4))
     if rng.random() < 0.7:
         ops += ["C", "L"]
-    if rng.random() < 0.12 and owned:
+    crowd = rng.random() < 0.1
+    if crowd:
+        # many owners: more users with a task than the 16 slots the complete dump starts out with (its list of users seen
+        # has to grow), some of them cancelling again
+        many = rng.sample(CROWD, rng.choice([17, 18, 24, 33, 40]))
+        for u in many:
+            ops += add_some(1, [u])
+        for u in rng.sample(many, rng.randint(0, 3)):
+            for x in sorted(x for x, o in owned.items() if o == u):
+                ops.append(request(u, [("cancel", x)])[0])
+                del owned[x]
+    elif rng.random() < 0.12 and owned:
         # a user cancels everything it has, then the interval gets busy: the complete dump has no task of that user to see
         quitter = rng.choice(sorted(set(owned.values())))
         for u in sorted(x for x, o in owned.items() if o == quitter):
@@ -64,7 +75,7 @@ def gen(rng, thorough):
     else:
         ops += add_some(rng.randint(1, 4))
     r = rng.random()
-    victim = rng.choice(USERS[:3])
+    victim = rng.choice(sorted(set(owned.values())) if crowd and owned else USERS[:3])
     if r < 0.55:
         ops.append("K %d %s" % (victim, rng.choice("owcra")))
     elif r < 0.8:
@@ -204,10 +215,11 @@ def run(ctx):
     ctx.cov.update({
         "full_dump_histories": sum(1 for ops in cases if sum(1 for o in ops if o.startswith("A ")) >= 16),
         "full_dump_cut_histories_oracle_only": len(oracle_only),
+        "histories_with_more_than_16_owners": sum(1 for ops in cases if len({o.split()[1] for o in ops if o.startswith("A ")}) > 16),
         "evaluations": len(lines),
         "distinct_nontrivial": len({l for l in lines if " K " in l or " F " in l or " R " in l}),
         "traces_validated_against_impl": len(lines) - len(corr),
-        "rule": "histories of accepted add / cancel requests of three users, an optional completed checkpoint, more requests, then "
+        "rule": "histories of accepted add / cancel requests of three users (one in ten: of 17 to 40 users), an optional completed checkpoint, more requests, then "
                 "a checkpoint that is cut at a named file-system call (openat of the dot-file, first write, close, rename, right "
                 "after the rename) of one user's file, or in which one such call fails (EIO/ENOSPC/EACCES), followed by a new daemon "
                 "on the same spool; half of them continue with a clean shutdown and another restart. non-trivial = contains a cut, "
